@@ -393,3 +393,38 @@
         std::mem::forget(r2);
         std::mem::forget(d);
     }
+
+// @h id=H5.2c-w$w prop=C05,C03 rep="w:1-2" quick="1-2" cap=400 mem=12 unwind=12 uw="read_varint=4;decode_var=4" bounds="N=2 entries whose fields have CANONICAL (shortest) varint encodings of width class w=$w for ids/offsets (1: values < 128; 2: 128..16383) and 1 byte for run lengths/lengths; image = the reference encoder's canonical output"
+    /// the parser decodes the independent encoder's canonical (shortest-form) output to the same entries
+    #[kani::proof]
+    fn h5_2c_parse_canonical_w$w() {
+        const N: usize = 2;
+        const W: usize = $w;
+        let e = any_entries::<N>();
+        assume_valid(&e);
+        let raw = vr::raw_columns(&e);
+        let w = [[W; N], [1; N], [1; N], [W; N]];
+        let mut c = 0;
+        while c < 4 {
+            let mut i = 0;
+            while i < N {
+                kani::assume(raw[c][i] >= vr::class_lo(w[c][i]) && raw[c][i] <= vr::class_hi(w[c][i]));
+                i += 1;
+            }
+            c += 1;
+        }
+        let mut img = [0u8; 1 + N * (2 * W + 2)];
+        let len = vr::put_columns(&mut img, 0, &raw, &w);
+        assert!(len == 1 + N * (2 * W + 2));
+        // the image is exactly what the reference encoder emits (canonical form)
+        let mut want = [0u8; 1 + N * (2 * W + 2)];
+        let m = vr::ref_encode(&e, &mut want);
+        assert!(m == len);
+        let r = Directory::from_bytes(&img[..], Compression::None);
+        assert!(r.is_ok());
+        let d = r.unwrap();
+        assert!(same(&d, &e));
+        kani::cover!(e[1].run_length == 0);
+        kani::cover!(e[0].length == 127);
+        std::mem::forget(d);
+    }
